@@ -94,6 +94,11 @@ class CachedStore(Entity):
         # Cache storage
         self._cache: dict[str, Any] = {}
         self._dirty_keys: set[str] = set()  # For write-back
+        # Per key: put() calls started, and write-through writes whose backing
+        # store write has not landed yet. A miss must not cache what it fetched
+        # if either changed while (or is non-zero when) the fetch completes.
+        self._put_started: dict[str, int] = {}
+        self._writes_in_flight: dict[str, int] = {}
 
         # Statistics
         self._reads = 0
@@ -172,10 +177,16 @@ class CachedStore(Entity):
 
         # Cache miss - fetch from backing store
         self._misses += 1
+        puts_before = self._put_started.get(key, 0)
         value = yield from self._backing_store.get(key)
 
-        if value is not None:
-            # Cache the value
+        if (
+            value is not None
+            and self._put_started.get(key, 0) == puts_before
+            and not self._writes_in_flight.get(key, 0)
+        ):
+            # Cache the value (unless a put to this key started or is still
+            # on its way to the backing store: the fetched value may be older)
             self._cache_put(key, value)
 
         return value
@@ -194,13 +205,18 @@ class CachedStore(Entity):
             Write latency.
         """
         self._writes += 1
+        self._put_started[key] = self._put_started.get(key, 0) + 1
 
         # Update cache
         self._cache_put(key, value)
 
         if self._write_through:
             # Write to backing store
-            yield from self._backing_store.put(key, value)
+            self._writes_in_flight[key] = self._writes_in_flight.get(key, 0) + 1
+            try:
+                yield from self._backing_store.put(key, value)
+            finally:
+                self._writes_in_flight[key] -= 1
         else:
             # Mark as dirty for later writeback
             self._dirty_keys.add(key)
